@@ -43,6 +43,56 @@ pub open spec fn inv_fp(w: World) -> bool {
 }
 pub open spec fn sa_inv(w: World) -> bool { inv_ids(w) && inv_rules(w) && inv_fp(w) }
 
+// ---- C03 "newest-first" rests on the registry invariant: ids are handed out in increasing order (NextId is monotone,
+// lemma.step.next_id_monotone), every per-type list is strictly ascending (inv_ids, kept by every edit), hence the candidate
+// list - the live rules of the id list, last first - is in strictly DESCENDING id order: a later-created rule always
+// comes before an earlier one. An edit that reorders an id list (e.g. a swap-remove) breaks `keeps_invariant`. ----
+pub proof fn lemma_candidates_descending(w: World, ids: Seq<u32>)
+    requires forall|i: int, j: int| 0 <= i < j < ids.len() ==> ids[i] < ids[j],
+    ensures
+        //@@ C03:lemma.candidates.later_created_rule_first
+        forall|p: int, q: int| 0 <= p < q < live_rules_rev(w, ids).len() ==> live_rules_rev(w, ids)[p].id > live_rules_rev(w, ids)[q].id,
+    decreases ids.len()
+{
+    if ids.len() > 0 {
+        let ids0 = ids.drop_last();
+        lemma_candidates_descending(w, ids0);
+        lemma_live_rules_members(w, ids0);
+        let l0 = live_rules_rev(w, ids0);
+        let l = live_rules_rev(w, ids);
+        assert forall|p: int, q: int| 0 <= p < q < l.len() implies l[p].id > l[q].id by {
+            if rule_live(w, sa_rule(w, ids.last())) {
+                if p == 0 {
+                    let c = l0[q - 1];
+                    assert(l[q] == c);
+                    assert(l0.contains(c));
+                    let i = choose|i: int| 0 <= i < ids0.len() && c == sa_rule(w, #[trigger] ids0[i]);
+                    assert(ids0[i] == ids[i]);
+                    assert(c.id == ids[i] && ids[i] < ids[ids.len() - 1]);
+                    assert(l[0] == sa_rule(w, ids.last()));
+                } else {
+                    assert(l[p] == l0[p - 1] && l[q] == l0[q - 1]);
+                }
+            } else {
+                assert(l == l0);
+            }
+        }
+    }
+}
+pub proof fn lemma_candidates_newest_first_by_creation(w: World, t: ContextRuleType)
+    requires inv_ids(w),
+    ensures
+        //@@ C03:lemma.candidates.newest_first_under_registry_invariant
+        forall|p: int, q: int| 0 <= p < q < live_rules_rev(w, sa_ids(w, t)).len() ==>
+            live_rules_rev(w, sa_ids(w, t))[p].id > live_rules_rev(w, sa_ids(w, t))[q].id,
+{
+    let ids = sa_ids(w, t);
+    assert forall|i: int, j: int| 0 <= i < j < ids.len() implies ids[i] < ids[j] by {
+        assert(sa_ids(w, t)[i] < sa_ids(w, t)[j]);
+    }
+    lemma_candidates_descending(w, ids);
+}
+
 /// the registry views of w2 are those of w except for rule `id`
 pub open spec fn rules_same_except(w: World, w2: World, id: u32) -> bool {
     forall|j: u32| #![trigger sa_meta(w2, j)] #![trigger sa_signers(w2, j)] #![trigger sa_policies(w2, j)]
@@ -76,7 +126,7 @@ pub proof fn lemma_add_rule_abs(w: World, ct: ContextRuleType, name: String, vu:
     ensures ({
         let w2 = add_rule_post(w, ct, name, vu, signers, pol);
         let id = sa_next_id(w);
-        //@@ C20:lemma.add_rule.is_map_insert_at_fresh_id
+        //@@ C03+C20:lemma.add_rule.is_map_insert_at_fresh_id
         &&& sa_next_id(w2) == id + 1
         &&& sa_count(w2) == sa_count(w) + 1
         &&& iget(w2, SmartAccountStorageKey::Count).is_some()
@@ -150,11 +200,11 @@ pub proof fn lemma_insert_inv(w: World, w2: World, id: u32, ct: ContextRuleType,
 pub proof fn lemma_add_rule_inv(w: World, ct: ContextRuleType, name: String, vu: Option<u32>, signers: Seq<Signer>, pol: Seq<(Address, Val)>)
     requires inv_ids(w), inv_rules(w), add_rule_guard(w, ct, vu, signers, pol),
     ensures
-        //@@ C20:lemma.add_rule.keeps_invariant
+        //@@ C03+C20:lemma.add_rule.keeps_invariant
         inv_ids(add_rule_post(w, ct, name, vu, signers, pol)) && inv_rules(add_rule_post(w, ct, name, vu, signers, pol)),
-        //@@ C20:lemma.add_rule.id_is_fresh_and_next_id_grows
+        //@@ C03+C20:lemma.add_rule.id_is_fresh_and_next_id_grows
         !sa_exists(w, sa_next_id(w)) && sa_next_id(add_rule_post(w, ct, name, vu, signers, pol)) == sa_next_id(w) + 1,
-        //@@ C20:lemma.add_rule.limit_enforced_exactly
+        //@@ C03+C20:lemma.add_rule.limit_enforced_exactly
         sa_count(w) < MAX_CONTEXT_RULES && sa_count(add_rule_post(w, ct, name, vu, signers, pol)) <= MAX_CONTEXT_RULES,
 {
     lemma_add_rule_abs(w, ct, name, vu, signers, pol);
@@ -312,11 +362,11 @@ pub proof fn lemma_upd_meta(w: World, id: u32, name: String, vu: Option<u32>)
     requires inv_ids(w), inv_rules(w), sa_exists(w, id),
     ensures ({
         let w2 = upd_meta_post(w, id, name, vu);
-        //@@ C20:lemma.update_meta.is_map_update
+        //@@ C03+C20:lemma.update_meta.is_map_update
         &&& sa_meta(w2, id) == Some(Meta { name: name, context_type: sa_meta(w, id).unwrap().context_type, valid_until: vu })
         &&& rule_updated(w, w2, id, sa_signers(w, id), sa_policies(w, id))
         &&& fp_same(w, w2)
-        //@@ C20:lemma.update_meta.keeps_invariant
+        //@@ C03+C20:lemma.update_meta.keeps_invariant
         &&& inv_ids(w2) && inv_rules(w2)
     }),
 {
@@ -330,12 +380,12 @@ pub proof fn lemma_add_signer(w: World, id: u32, signer: Signer)
     ensures ({
         let w2 = add_signer_post(w, id, signer);
         let r = sa_rule(w, id);
-        //@@ C20:lemma.add_signer.is_set_insert
+        //@@ C03+C20:lemma.add_signer.is_set_insert
         &&& !sa_signers(w, id).contains(signer) && sa_signers(w2, id) == sa_signers(w, id).push(signer)
         &&& sa_meta(w2, id) == sa_meta(w, id)
         &&& rule_updated(w, w2, id, sa_signers(w, id).push(signer), sa_policies(w, id))
         &&& fp_swapped(w, w2, fp_spec(r.context_type, r.signers@, r.policies@), fp_spec(r.context_type, r.signers@.push(signer), r.policies@))
-        //@@ C20:lemma.add_signer.keeps_invariant_and_limit
+        //@@ C03+C20:lemma.add_signer.keeps_invariant_and_limit
         &&& inv_ids(w2) && inv_rules(w2) && sa_signers(w2, id).len() <= MAX_SIGNERS
     }),
 {
@@ -354,13 +404,13 @@ pub proof fn lemma_remove_signer(w: World, id: u32, signer: Signer)
         let w2 = remove_signer_post(w, id, signer);
         let r = sa_rule(w, id);
         let s1 = sa_signers(w, id).remove(last_idx(sa_signers(w, id), signer));
-        //@@ C20:lemma.remove_signer.is_set_remove
+        //@@ C03+C20:lemma.remove_signer.is_set_remove
         &&& sa_signers(w, id).contains(signer) && sa_signers(w2, id) == s1 && !s1.contains(signer)
         &&& forall|x: Signer| x != signer ==> (s1.contains(x) <==> sa_signers(w, id).contains(x))
         &&& sa_meta(w2, id) == sa_meta(w, id)
         &&& rule_updated(w, w2, id, s1, sa_policies(w, id))
         &&& fp_swapped(w, w2, fp_spec(r.context_type, r.signers@, r.policies@), fp_spec(r.context_type, s1, r.policies@))
-        //@@ C20:lemma.remove_signer.keeps_invariant
+        //@@ C03+C20:lemma.remove_signer.keeps_invariant
         &&& inv_ids(w2) && inv_rules(w2)
     }),
 {
@@ -380,12 +430,12 @@ pub proof fn lemma_add_policy(w: World, id: u32, policy: Address, param: Val)
     ensures ({
         let w2 = add_policy_post(w, id, policy, param);
         let r = sa_rule(w, id);
-        //@@ C20:lemma.add_policy.is_set_insert
+        //@@ C03+C20:lemma.add_policy.is_set_insert
         &&& !sa_policies(w, id).contains(policy) && sa_policies(w2, id) == sa_policies(w, id).push(policy)
         &&& sa_meta(w2, id) == sa_meta(w, id)
         &&& rule_updated(w, w2, id, sa_signers(w, id), sa_policies(w, id).push(policy))
         &&& fp_swapped(w, w2, fp_spec(r.context_type, r.signers@, r.policies@), fp_spec(r.context_type, r.signers@, r.policies@.push(policy)))
-        //@@ C20:lemma.add_policy.keeps_invariant_and_limit
+        //@@ C03+C20:lemma.add_policy.keeps_invariant_and_limit
         &&& inv_ids(w2) && inv_rules(w2) && sa_policies(w2, id).len() <= MAX_POLICIES
     }),
 {
@@ -404,13 +454,13 @@ pub proof fn lemma_remove_policy(w: World, id: u32, policy: Address, ok: bool)
         let w2 = remove_policy_post(w, id, policy, ok);
         let r = sa_rule(w, id);
         let p1 = sa_policies(w, id).remove(last_idx(sa_policies(w, id), policy));
-        //@@ C20:lemma.remove_policy.is_set_remove
+        //@@ C03+C20:lemma.remove_policy.is_set_remove
         &&& sa_policies(w, id).contains(policy) && sa_policies(w2, id) == p1 && !p1.contains(policy)
         &&& forall|x: Address| x != policy ==> (p1.contains(x) <==> sa_policies(w, id).contains(x))
         &&& sa_meta(w2, id) == sa_meta(w, id)
         &&& rule_updated(w, w2, id, sa_signers(w, id), p1)
         &&& fp_swapped(w, w2, fp_spec(r.context_type, r.signers@, r.policies@), fp_spec(r.context_type, r.signers@, p1))
-        //@@ C20:lemma.remove_policy.keeps_invariant
+        //@@ C03+C20:lemma.remove_policy.keeps_invariant
         &&& inv_ids(w2) && inv_rules(w2)
     }),
 {
@@ -448,12 +498,12 @@ pub proof fn lemma_remove_rule(w: World, id: u32, fin: Seq<Call>)
     requires inv_ids(w), inv_rules(w), remove_rule_guard(w, id),
     ensures ({
         let w2 = remove_rule_post(w, id, fin);
-        //@@ C20:lemma.remove_rule.is_map_remove
+        //@@ C03+C20:lemma.remove_rule.is_map_remove
         &&& rule_removed(w, w2, id)
         &&& !sa_ids(w2, sa_meta(w, id).unwrap().context_type).contains(id)
-        //@@ C20:lemma.remove_rule.id_not_reused
+        //@@ C03+C20:lemma.remove_rule.id_not_reused
         &&& sa_next_id(w2) == sa_next_id(w) && id < sa_next_id(w2)
-        //@@ C20:lemma.remove_rule.keeps_invariant
+        //@@ C03+C20:lemma.remove_rule.keeps_invariant
         &&& inv_ids(w2) && inv_rules(w2)
     }),
 {
@@ -532,11 +582,11 @@ pub proof fn lemma_inv_frame(w: World, w2: World)
 pub proof fn lemma_reg_step(w: World, w2: World, op: RegOp)
     requires inv_ids(w), inv_rules(w), reg_step(w, w2, op),
     ensures
-        //@@ C20:lemma.step.keeps_invariant
+        //@@ C03+C20:lemma.step.keeps_invariant
         inv_ids(w2) && inv_rules(w2),
-        //@@ C20:lemma.step.next_id_monotone
+        //@@ C03+C20:lemma.step.next_id_monotone
         sa_next_id(w) <= sa_next_id(w2),
-        //@@ C20:lemma.step.stored_ids_stay_below_next_id
+        //@@ C03+C20:lemma.step.stored_ids_stay_below_next_id
         forall|id: u32| #[trigger] sa_exists(w2, id) ==> id < sa_next_id(w2),
 {
     let p = op_post(w, op);
@@ -557,9 +607,9 @@ pub proof fn lemma_reg_step(w: World, w2: World, op: RegOp)
 pub proof fn lemma_reg_history(tr: Seq<World>, ops: Seq<RegOp>, i: int)
     requires reg_history(tr, ops), inv_ids(tr[0]), inv_rules(tr[0]), 0 <= i <= ops.len(),
     ensures
-        //@@ C20:lemma.history.invariant_after_any_edit_sequence
+        //@@ C03+C20:lemma.history.invariant_after_any_edit_sequence
         inv_ids(tr[i]) && inv_rules(tr[i]),
-        //@@ C20:lemma.history.ids_never_reused
+        //@@ C03+C20:lemma.history.ids_never_reused
         sa_next_id(tr[0]) <= sa_next_id(tr[i]),
     decreases i
 {
@@ -572,7 +622,7 @@ pub proof fn lemma_reg_history(tr: Seq<World>, ops: Seq<RegOp>, i: int)
 pub proof fn lemma_inv_empty(w: World)
     requires w.persistent == Map::<SV, SV>::empty(), w.instance == Map::<SV, SV>::empty(),
     ensures
-        //@@ C20:lemma.invariant_witness
+        //@@ C03+C20:lemma.invariant_witness
         sa_inv(w),
 {
     assert forall|t: ContextRuleType| #[trigger] sa_ids(w, t) == Seq::<u32>::empty() by {}
